@@ -1,7 +1,7 @@
 """C25 - the template cache serves the current template source.
 
 Case:
-  {"loader": "dict" | "func" | "func_utd" | "fs" | "pkg", "cache": 0 | 1 | 2 | -1, "auto_reload": bool,
+  {"loader": "dict" | "dict_map" | "func" | "func_utd" | "fs" | "pkg", "cache": 0 | 1 | 2 | -1, "auto_reload": bool,
    "names": 2 | 3, "ops": [["get", "a"], ["select", "b", "a"], ["put", "a", 1], ["del", "a"], ["swap"]]}
 
 Two loaders of the given kind (L0, L1) with separate stores; the environment starts on L0.
@@ -12,7 +12,9 @@ the same version, i.e. an equal but newly created source / a rewritten file -, a
 moves *backwards* to a value older than every stamp used so far (backup restore, timestamp-preserving deploy);
 the default moves it forwards.  A stamp never repeats.  ``["auto"]`` toggles ``env.auto_reload`` (the configuration gives the initial value; what counts is the value
 at fetch time).  "pkg" is a PackageLoader on a directory package created under /verif/.work and put on sys.path
-(mtimes forced like for "fs").  ``del`` removes it, ``swap`` assigns the other loader to ``env.loader``.  Every version renders a text
+(mtimes forced like for "fs").  "dict_map" is a DictLoader over a Mapping that is not a dict (L0: collections.UserDict, L1: a types.MappingProxyType
+view of a dict the harness changes).  ``["overlay"]`` replaces the environment by ``env.overlay()`` (no arguments):
+same configuration, a new empty cache of the same size.  ``del`` removes it, ``swap`` assigns the other loader to ``env.loader``.  Every version renders a text
 naming loader, name and version, so the rendered output identifies the source that was compiled - except
 version 2, which is the EMPTY source (renders ''; an existing empty template is not a missing one: the
 observation kinds "rendered" and "notfound" are compared, not only the text).
@@ -33,10 +35,10 @@ from vt import core
 PID = "C25"
 LEVEL = "exploration"
 RULE = (
-    "exhaustive histories ending in a fetch over {get(n), select([n, m]), put(n, v) (FileSystemLoader: with a later and with an earlier mtime), del(n), swap loader, toggle env.auto_reload} for 2 names x 2 source versions (a non-empty one and the EMPTY source; two non-empty ones at shorter lengths; all three in thorough) "
+    "exhaustive histories ending in a fetch over {get(n), select([n, m]), put(n, v) (FileSystemLoader: with a later and with an earlier mtime), del(n), swap loader, toggle env.auto_reload, continue on env.overlay() (DictLoader / callback FunctionLoader sets)} for 2 names x 2 source versions (a non-empty one and the EMPTY source; two non-empty ones at shorter lengths; all three in thorough) "
     "(length <= 4 quick / <= 5 thorough, plus length 6 on cache sizes 1 and 2: full alphabet on DictLoader, get/put/del only on the other loaders) and 3 names x 2 versions (length <= 3, plus length 4 on DictLoader with "
     "cache size 2, quick / <= 4, plus length 5 on DictLoader with cache size 2, thorough) "
-    "x cache sizes {0, 1, 2, -1} x auto_reload {on, off} x {DictLoader, FunctionLoader returning str, FunctionLoader with an "
+    "x cache sizes {0, 1, 2, -1} x auto_reload {on, off} x {DictLoader over a dict, DictLoader over a UserDict / MappingProxyType, FunctionLoader returning str, FunctionLoader with an "
     "up-to-date callback, FileSystemLoader with mtimes forced from a counter, PackageLoader on a directory package (shorter histories)}; plus Hypothesis RuleBasedStateMachine histories of "
     "up to 100 steps over 3 names x 3 versions.  Non-trivial = the history fetches a key again after its source was changed or "
     "deleted, after it was evicted, or with a size-0 cache; distinct = distinct case."
@@ -44,6 +46,7 @@ RULE = (
 ASSUMPTIONS = [
     "reference model: LRU keyed by (loader, name); a cache hit and a (re)load make the key most recently used; a load into a full cache evicts the least recently used key",
     "the up-to-date check applies iff env.auto_reload is true at the time of the fetch (the attribute may be assigned after templates were cached)",
+    "Environment.overlay() without cache_size yields an environment with an empty cache of the parent's kind and size (copy_cache: 'an empty copy of the given cache')",
     "staleness per loader as documented/implemented by its up-to-date check: DictLoader compares the source text, FileSystemLoader and PackageLoader (directory package) the mtime, "
     "FunctionLoader whatever callback the load function returns (here: a modification stamp); no callback = never stale",
     "after a failed reload (source deleted, cached entry stale) the model admits three cache states (entry kept / kept and made most recent / dropped)",
@@ -53,11 +56,12 @@ ASSUMPTIONS = [
 ]
 
 NAMES = "abc"
-KINDS = ["dict", "func", "func_utd", "fs", "pkg"]
+KINDS = ["dict", "dict_map", "func", "func_utd", "fs", "pkg"]
+DICTS = ("dict", "dict_map")
 DISK = ("fs", "pkg")
 MEM = ["dict", "func", "func_utd"]
 CACHES = [0, 1, 2, -1]
-HAS_UTD = {"dict": True, "func": False, "func_utd": True, "fs": True, "pkg": True}
+HAS_UTD = {"dict": True, "dict_map": True, "func": False, "func_utd": True, "fs": True, "pkg": True}
 BASE_MTIME = 1_500_000_000
 _keep_dirs = [False]  # set by run_shard: the (empty) per-process directories survive between cases of one shard
 
@@ -125,7 +129,7 @@ def rendered_text(li, name, version):
 def _stale(kind, entry, cur):
     if cur is None:
         return True
-    if kind == "dict":
+    if kind in DICTS:
         return entry[0] != cur[0]
     return entry[1] != cur[1]
 
@@ -213,6 +217,12 @@ class Run:
                     self.loaders = [FileSystemLoader(d) for d in self.tdirs]
                 else:
                     self.loaders = [PackageLoader(_pkg_name(li)) for li in (0, 1)]
+            elif kind == "dict_map":
+                import collections
+                import types
+
+                self.maps = [collections.UserDict(), {}]
+                self.loaders = [DictLoader(self.maps[0]), DictLoader(types.MappingProxyType(self.maps[1]))]
             elif kind == "dict":
                 self.maps = [{}, {}]
                 self.loaders = [DictLoader(self.maps[0]), DictLoader(self.maps[1])]
@@ -260,7 +270,7 @@ class Run:
             stamp = self.stamp
         self.store[li][name] = (version, stamp)
         src = "".join(list(source_text(li, name, version)))  # a new string object every time
-        if self.kind == "dict":
+        if self.kind in DICTS:
             self.maps[li][name] = src
         elif self.kind in DISK and self.materialized[li]:
             self._write(li, name, src, stamp)
@@ -283,7 +293,7 @@ class Run:
     def _del(self, li, name):
         if self.store[li].pop(name, None) is None:
             return
-        if self.kind == "dict":
+        if self.kind in DICTS:
             del self.maps[li][name]
         elif self.kind in DISK and self.materialized[li]:
             os.remove(os.path.join(self.tdirs[li], name))
@@ -339,6 +349,15 @@ class Run:
                 self._materialize(self.cur)
             self.env.loader = self.loaders[self.cur]
             self.labels.add("swap")
+        elif name == "overlay":
+            # Environment.overlay() "shares all the data with the current environment except for cache": the
+            # overlay gets an empty copy of the cache (same kind and size) and is used from here on
+            self.env = self.env.overlay()
+            self.states = [()]
+            self.labels.add("overlay")
+            keys = self._cached_keys()
+            if keys != (None if self.cap == 0 else []):
+                self._fail(op, "the overlay's cache holds %r, expected an empty cache of size %d" % (keys, self.cap))
         elif name == "auto":
             self.auto = not self.auto
             self.env.auto_reload = self.auto
@@ -453,7 +472,7 @@ def check_case(case):
 # generators
 
 
-def alphabet(nnames, versions, full=True, earlier=False):
+def alphabet(nnames, versions, full=True, earlier=False, overlay=False):
     names = NAMES[:nnames]
     fetch = [["get", n] for n in names]
     if full:
@@ -462,6 +481,8 @@ def alphabet(nnames, versions, full=True, earlier=False):
     if earlier:
         other += [["put", n, v, "earlier"] for n in names for v in versions]
     other.append(["auto"])
+    if overlay:
+        other.append(["overlay"])
     if full:
         other.append(["swap"])
     return fetch, other
@@ -474,10 +495,10 @@ def configs(kinds=KINDS, caches=CACHES):
                 yield kind, cap, auto
 
 
-def histories(nnames, versions, lengths, kinds=KINDS, caches=CACHES, full=True, earlier=False):
+def histories(nnames, versions, lengths, kinds=KINDS, caches=CACHES, full=True, earlier=False, overlay=False):
     """Every history of the given lengths whose last operation is a fetch (a history ending in a store
     operation makes the same observations as its prefix), as (nnames, history, kinds, caches)."""
-    fetch, other = alphabet(nnames, versions, full, earlier)
+    fetch, other = alphabet(nnames, versions, full, earlier, overlay)
     ops = fetch + other
     for n in lengths:
         for head in itertools.product(ops, repeat=n - 1):
@@ -550,6 +571,10 @@ def _run_machine(ctx, rec, max_examples, steps, tag):
         def toggle(self):
             self._do(["auto"])
 
+        @rule()
+        def overlay(self):
+            self._do(["overlay"])
+
         def teardown(self):
             if self.run_ is not None:
                 self.run_.close()
@@ -606,6 +631,9 @@ def all_enumerated(tier):
             histories(3, V01, [4], kinds=["dict"], caches=[2]),
             histories(2, V0E, range(1, 4), kinds=["pkg"], earlier=True), histories(3, V0E, range(1, 4), kinds=["pkg"]),
             histories(2, V0E, [4], kinds=["pkg"], full=False),
+            histories(2, V0E, range(1, 4), kinds=["dict_map"]), histories(3, V0E, range(1, 4), kinds=["dict_map"]),
+            histories(2, V0E, [4], kinds=["dict_map"], full=False),
+            histories(2, V0E, range(1, 5), kinds=["dict"], overlay=True), histories(3, V0E, range(1, 4), kinds=["func_utd"], overlay=True),
         )
     return itertools.chain(
         histories(2, V01E, range(1, 5), kinds=MEM),
@@ -624,6 +652,9 @@ def all_enumerated(tier):
         histories(2, V0E, range(1, 5), kinds=["pkg"], earlier=True),
         histories(3, V0E, range(1, 4), kinds=["pkg"]),
         histories(2, V0E, [5], kinds=["pkg"], caches=[1, 2], full=False),
+        histories(2, V01E, range(1, 5), kinds=["dict_map"]), histories(3, V0E, range(1, 5), kinds=["dict_map"]),
+        histories(2, V0E, range(1, 6), kinds=["dict"], overlay=True), histories(3, V0E, range(1, 5), kinds=["func_utd"], overlay=True),
+        histories(2, V0E, range(1, 5), kinds=["fs"], overlay=True),
     )
 
 
@@ -666,7 +697,7 @@ def floors(total, tier):
         return None
     lab = total.labels
     need = {"evict": 500, "stale_served": 500, "notfound": 500, "ambiguous_state": 100, "swap": 500, "select_fallback": 200,
-            "rewrite_same": 200, "stamp_earlier": 500, "empty_source": 1000, "toggle_auto_reload": 1000, "hit": 500, "compiled": 500}
+            "rewrite_same": 200, "stamp_earlier": 500, "empty_source": 1000, "toggle_auto_reload": 1000, "overlay": 1000, "loader=dict_map": 1000, "hit": 500, "compiled": 500}
     for k in KINDS:
         need["loader=" + k] = 1000
     low = ["%s=%d (< %d)" % (k, lab.get(k, 0), v) for k, v in need.items() if lab.get(k, 0) < v]
